@@ -471,7 +471,42 @@ def run(ck, prog, ctx):
     pc = prog.body(TI + "::parents_cached")
     if pc is not None:
         fl = codec.fields_read(prog, pc, TI_RX, depth=0)
-        ck.ob("FIELD", "parents_cached", {"parents", "all_parents"} <= fl, "parents_cached looks at %s" % sorted(fl), where=pc.where())
+        ck.ob("FIELD", "parents_cached", "all_parents" in fl, "parents_cached looks at %s (the closure set decides; see the truth table below)" % sorted(fl), where=pc.where())
+        # exact truth table: cached <=> no direct parents OR the closure set is filled; nothing else (a flag of the term, ...) may answer "cached"
+        import itertools
+        from engines import bool_table, eval_bool_table
+        pvf = Prov(prog, inline=False, mutflow=False)
+
+        def call_atom(t, body):
+            if t.callee.method == "is_empty" and len(t.args) == 1:
+                f_ = field_names(pvf.of_operand(body, t.args[0]), "HpoTermInternal")
+                if len(f_) == 1:
+                    return ("empty", next(iter(f_)))
+            return None
+
+        def place_atom(pl, body):
+            fs = [e for e in pl.fields() if e != "*"]
+            if pl.local == 1 and len(fs) == 1 and fs[0][0] == "f":
+                return ("flag", fs[0][1])
+            return None
+        rows = bool_table(pc, lambda *a: None, call_atom=call_atom, place_atom=place_atom)
+        if rows is None:
+            ck.undecided("FIELD", "parents_cached/table", "parents_cached is not a plain combination of emptiness tests", where=pc.where())
+        else:
+            keys = sorted({k for asg, r in rows for k in asg} | {r[1] for asg, r in rows if isinstance(r, tuple)})
+            extra = [k for k in keys if k not in (("empty", "parents"), ("empty", "all_parents"))]
+            bad = None
+            for bits in itertools.product((False, True), repeat=len(keys)):
+                full = dict(zip(keys, bits))
+                got = eval_bool_table(rows, full)
+                want = full.get(("empty", "parents"), False) or not full.get(("empty", "all_parents"), True)
+                # "cached" must imply that the closure set is really there (answering "not cached" too often only recomputes)
+                if got is None or (got and not want):
+                    bad = (full, got, want)
+                    break
+            ck.ob("FIELD", "parents_cached/table", bad is None,
+                  "parents_cached() implies parents.is_empty() || !all_parents.is_empty() (%d-row truth table over %s)" % (2 ** len(keys), ["%s.%s" % (k[1], k[0]) for k in keys]) if bad is None else
+                  "parents_cached() answers `cached` for %s: a term with direct parents counts as cached while its closure set is still empty, and everything computed from it is incomplete" % ({"%s.%s" % (k[1], k[0]): v for k, v in bad[0].items()},), where=pc.where())
 
     # ------------------------------------------------------------------ FIELD: readers
     T = "term::hpoterm::HpoTerm::<'a>::"
